@@ -16,6 +16,7 @@
     range_ok_b false -> finding `strlen-sort-key-range`; otherwise a fresh violation. Model differing from real ->
     correspondence failure."""
 import json
+import os
 import random
 
 from rvlib import *  # noqa
@@ -425,6 +426,56 @@ def sort_cases(tier, seed):
 
 
 # --------------------------------------------------------------------- the check
+PLUMB_GRAMMAR = ("S: First | Second | Kw;\nterminals\nFirst: /[a-z]+/;\nSecond: /[a-c]+/;\nKw: 'abc';\n")
+
+
+def strategy_plumbing(rep):
+    """The strategies are read by the runtimes from the GENERATED ParserDefinition (longest_match(), grammar_order();
+    most-specific lives in the table's terminal order, checked by sorted_ok_b). For every combination of parser
+    algorithm x generated table layout x the three lexical_disamb_* settings the real generator
+    (Settings::process_grammar via rvgen) writes a parser; the two functions must return the settings."""
+    import itertools
+    import re
+    import genlib as GL
+    n = 0
+    for algo, layout in itertools.product(["lr", "glr"], ["arrays", "functions"]):
+        for ms, lm, go in itertools.product([0, 1], repeat=3):
+            d = GL.fresh_dir("c06plumb", "%s_%s_%d%d%d" % (algo, layout, ms, lm, go))
+            gpath = os.path.join(d, "plumb.rustemo")
+            with open(gpath, "w") as f:
+                f.write(PLUMB_GRAMMAR)
+            b = lambda x: "true" if x else "false"
+            calls = ["in_source_tree", "force:true", "parser_algo:" + algo, "generator_table_type:" + layout,
+                     "lexical_disamb_most_specific:" + b(ms), "lexical_disamb_longest_match:" + b(lm),
+                     "lexical_disamb_grammar_order:" + b(go), "builder_type:generic"]
+            r = GL.rvgen(["gen", gpath] + calls)
+            src = os.path.join(d, "plumb.rs")
+            payload = dict(grammar=PLUMB_GRAMMAR, settings=calls)
+            if algo == "lr" and not go:
+                # "then grammar order (always for LR)": the setter refuses to switch it off for LR
+                if r.settings_panic is None:
+                    rep.violation("lr-grammar-order-disabled", "grammar order could be disabled for LR",
+                                  dict(payload, result=r.result), found_input=False)
+                else:
+                    n += 1
+                continue
+            if r.result != "OK" or not os.path.exists(src):
+                rep.violation("plumbing-generator", "the generator did not write a parser for the strategy-plumbing grammar",
+                              dict(payload, result=r.result, msg=r.msg[:300]), found_input=False)
+                continue
+            text = open(src).read()
+            got = {}
+            for fn in ("longest_match", "grammar_order"):
+                m = re.search(r"fn %s\(\) -> bool \{\s*(true|false)\s*\}" % fn, text)
+                got[fn] = m.group(1) if m else None
+            n += 1
+            if got["longest_match"] != b(lm) or got["grammar_order"] != b(go):
+                rep.violation("strategy-flag-not-plumbed", "the generated ParserDefinition does not report the lexical "
+                              "disambiguation strategies that were configured (the runtime keeps or drops tokens by them)",
+                              dict(payload, expected=dict(longest_match=b(lm), grammar_order=b(go)), generated=got))
+    return n
+
+
 def run(rep, tier, seed):
     reported = {}
 
@@ -548,11 +599,12 @@ def run(rep, tier, seed):
             if len(samples) < 5 and nontriv and r.case.grammar not in [x["grammar"] for x in samples]:
                 samples.append(dict(grammar=r.case.grammar, flags=r.case.flags, input=r.case.inputs[i], offset=off,
                                     real_token=real, in_known_class=bool(known), agrees_with_rule=bool(spec_ok)))
+    n_plumb = strategy_plumbing(rep)
     pt = rep.theorems or {}
     nthm = len(pt.get("theorems", []))
     rep.coverage = dict(
         # evaluations that fall in a recorded known-finding class (KNOWN_FINDINGS.txt) are reported separately below
-        obligations=nthm + len(sitems) + n_ev - n_f1 - n_range, evaluations_in_known_finding_classes=n_f1 + n_range,
+        obligations=nthm + len(sitems) + n_ev - n_f1 - n_range, evaluations_in_known_finding_classes=n_f1 + n_range, strategy_flag_configurations_checked=n_plumb,
         discharged=(pt.get("closed", 0) if not [v for v in rep.violations if v[0] in ("coq-build", "axioms", "assumptions")]
                     else 0) + n_sorted_ok + (n_ev - n_f1 - n_range),
         checker_cmd="make -C coq Properties/C06.vo ; coqc work/c06s_*.v work/c06l_*.v (vm_compute of sorted_ok_b, "
